@@ -34,6 +34,8 @@ class World(object):
         self.cls = {"CHouse": housing.House, "CStore": storing.Store, "CTasker": tasking.Tasker,
                     "CFramer": framing.Framer, "CLogger": logging.Logger, "CLog": logging.Log,
                     "CFrame": framing.Frame}
+        from ioflo.aid import consoling
+        consoling.getConsole().reinit(verbosity=0)      # no console chatter from clone()
         self.rnd = Rnd()
         registering.random = self.rnd            # harness-process double for random.randint
         for c in ("CFramer", "CLogger"):
@@ -46,6 +48,7 @@ class World(object):
             self.cls[c].Counter = 0
         self.heap = [self.cls[c].Names for c in ("CHouse", "CStore", "CTasker", "CLog", "CFrame")]
         self.houses, self.framers = [], []
+        self.fh = []              # house index (or None) of each framer's store, parallel to framers
         self.registered = []      # (dict object, name, instance) of every successful registration
 
     def hid(self, d):
@@ -54,10 +57,39 @@ class World(object):
                 return i
         return -1
 
-    def apply(self, op):
+    def apply(self, op, store=None):
         """returns flat encoding of the result"""
         PE = self.m["excepting"].ParameterError
+        CE = self.m["excepting"].CloneError
         t = op[0]
+        if t == "createin":
+            h = op[1] if op[1] < len(self.houses) else None
+            r = self.apply(("create", "CFramer", op[2], op[3], op[4]), store=None if h is None else self.houses[h].store)
+            if r and r[0] == 1:
+                self.fh[-1] = h
+            return r
+        if t == "clone":
+            f, name, orc = op[1], op[2], op[3]
+            if f >= len(self.framers) or self.fh[f] is None:
+                return [0]
+            fr = self.framers[f]
+            self.rnd.q = list(orc)
+            try:
+                c = fr.clone(name=name, tag="t%d" % len(self.framers))
+            except CE:
+                return [4]
+            except PE:
+                return [2]
+            except Exception as ex:
+                return [9, sum(map(ord, type(ex).__name__)) % 100]
+            self.heap.append(c.frameNames)
+            self.framers.append(c)
+            self.fh.append(self.fh[f])
+            self.registered.append((self.cls["CFramer"].Names, c.name, c))
+            for k, fm in c.frameNames.items():
+                self.registered.append((c.frameNames, k, fm))
+            nm = c.name
+            return [1, len(nm)] + [ord(ch) for ch in nm]
         if t in ("create", "house"):
             c = "CHouse" if t == "house" else op[1]
             nk, pre, orc = (op[1], op[2], op[3]) if t == "house" else (op[2], op[3], op[4])
@@ -69,7 +101,7 @@ class World(object):
             if pre:
                 kw["preface"] = pre
             if c == "CFramer":
-                kw["store"] = self.helper
+                kw["store"] = store if store is not None else self.helper
             self.rnd.q = list(orc)
             cl = self.cls[c]
             names_before = cl.Names
@@ -95,6 +127,7 @@ class World(object):
             if c == "CFramer":
                 self.heap.append(obj.frameNames)
                 self.framers.append(obj)
+                self.fh.append(None)
             nm = obj.name
             r = [1, len(nm)] + [ord(ch) for ch in nm]
             if nm in keys_before:
@@ -157,7 +190,25 @@ def run_impl(ops):
 def prop_violation(ops):
     w = World()
     for i, op in enumerate(ops):
+        expect = None
+        if op[0] == "clone" and op[1] < len(w.framers) and w.fh[op[1]] is not None \
+                and "Names" not in w.cls["CFramer"].__dict__:
+            own = w.houses[w.fh[op[1]]].names["tasker"]     # the registry of the framer's OWN house
+            expect = (own, bool(op[2]) and op[2] in own)
         r = w.apply(op)
+        if expect is not None:
+            own, taken = expect
+            rejected = r[0] in (2, 4)
+            if rejected and not taken:
+                return {"step": i, "op": op, "key": "c47-clone-other-house",
+                        "why": "clone name %r is free in the framer's own house but was rejected: the duplicate check "
+                               "ran against the namespace of another house" % (op[2],)}
+            if taken and not rejected:
+                return {"step": i, "op": op, "key": "c47-clone-duplicate-accepted",
+                        "why": "clone name %r already exists in the framer's own house but was accepted" % (op[2],)}
+            if r[0] == 1 and own.get(w.framers[-1].name) is not w.framers[-1]:
+                return {"step": i, "op": op, "key": "c47-clone-other-house",
+                        "why": "the clone was not registered in its own house's tasker registry"}
         if r and r[-1] == -97:
             return {"step": i, "op": op, "why": "a new instance was given a name already present in its namespace"}
         if r and r[0] == 9:
@@ -195,6 +246,10 @@ def c_op(op):
         return "Create %s %s %s %s" % (op[1], c_nk(op[2]), c_str(op[3]), c_l(op[4]))
     if t == "house":
         return "CreateHouse %s %s %s" % (c_nk(op[1]), c_str(op[2]), c_l(op[3]))
+    if t == "createin":
+        return "CreateFramerIn %d%%nat %s %s %s" % (op[1], c_nk(op[2]), c_str(op[3]), c_l(op[4]))
+    if t == "clone":
+        return "Clone %d%%nat %s %s" % (op[1], c_str(op[2]), c_l(op[3]))
     if t == "assign":
         return "Assign %d%%nat" % op[1]
     if t == "assignframe":
@@ -221,10 +276,24 @@ ALPHABET = [
     ("house", None, "", []), ("house", "h", "", []),
     ("assign", 0), ("assign", 1), ("assignframe", 0), ("clear", "CTasker"), ("clear", "CFramer"), ("clearreg",),
 ]
+# multi-house prefix + alphabet for Framer.clone: two houses, one framer "f" in each (with a frame), then
+# every history of length <= 2 over CLONE_ALPHABET
+CLONE_PREFIX = [("house", "a", "", []), ("house", "b", "", []), ("assign", 0), ("createin", 0, "f", "", []),
+                ("assignframe", 0), ("create", "CFrame", "fr1", "", []), ("create", "CFrame", None, "", []),
+                ("assign", 1), ("createin", 1, "f", "", []), ("createin", 1, "g", "", [])]
+CLONE_ALPHABET = [("clone", 0, "w", []), ("clone", 1, "w", []), ("clone", 0, "g", []), ("clone", 1, "g", []),
+                  ("clone", 0, "f", []), ("clone", 2, "w", []), ("clone", 0, "", [0, 1]), ("clone", 1, "", [1]),
+                  ("clone", 3, "x", []), ("assign", 0), ("assign", 1), ("create", "CTasker", "w", "", []),
+                  ("createin", 0, "w", "", []), ("createin", 1, None, "", [])]
 
 
 def gen_op(rng, nh, nf):
     c = rng.random()
+    if nh and c < 0.12:
+        return ("createin", rng.randrange(nh + 1), rng.choice([None, "f", "g", "w", "w1", "Framer2"]), "", [])
+    if nf and c < 0.3:
+        return ("clone", rng.randrange(nf + 1), rng.choice(["w", "w1", "f", "g", "x", "", "Framer3", "w_2"]),
+                [rng.randint(0, 1) for _ in range(rng.randint(0, 3))])
     pool = []
     for nm in ("Tasker", "Framer", "Logger", "Log", "Frame", "Store", "House", "T"):
         for k in (1, 2, 3):
@@ -291,6 +360,90 @@ def directed():
 
 STATE = {}
 
+# run-time Rearer path (sampled scenario, no Coq model): a FloScript plan with two houses of the same layout,
+# each rearing an insular aux clone of a moot framer at run time; both clones get the same generated name,
+# one per house.  Run cold in a subprocess; exit 0 = statement holds, 1 = violated (errors on stdout).
+REARER_SCRIPT = r'''
+import collections.abc, os, sys, tempfile, json
+from ioflo.aid import consoling
+from ioflo.base import skedding, excepting
+from ioflo.base.globaling import START, STOP, STOPPED, ACTIVE
+HOUSE = """
+house {house}
+
+   framer mission be active first rearing
+
+      frame rearing
+         rear worker as mine be aux in frame working
+         go next
+
+      frame working
+         go next if elapsed >= 0.5
+
+      frame finished
+         bid stop me
+
+   framer worker be moot first w1
+
+      frame w1
+         go next
+
+      frame w2
+         done
+"""
+consoling.getConsole().reinit(verbosity=0)
+errors = []
+path = os.path.join(tempfile.mkdtemp(prefix="c47rear", dir="."), "plan.flo")
+with open(path, "w") as f:
+    for h in ("alpha", "beta", "gamma"):
+        f.write(HOUSE.format(house=h))
+sk = skedding.Skedder(name="c47", period=0.125, real=False, filepath=path)
+if not sk.build():
+    print(json.dumps(["build failed"])); sys.exit(2)
+for house in sk.houses:
+    for tasker in house.taskables:
+        tasker.desire = START if tasker.schedule == ACTIVE else STOP
+        tasker.status = STOPPED
+stamp = 0.0
+try:
+    for tick in range(12):
+        for house in sk.houses:
+            house.store.changeStamp(stamp)
+            for tasker in house.taskables:
+                tasker.runner.send(tasker.desire)
+        stamp += 0.125
+except Exception as ex:
+    errors.append("run raised %s: %s" % (ex.__class__.__name__, ex))
+for house in sk.houses:
+    registry = house.names["tasker"]
+    mission = registry["mission"]
+    framers = list(house.framers) + list(mission.auxes.values())
+    names = [fr.name for fr in framers]
+    if len(names) != len(set(names)):
+        errors.append("house %s has duplicate framer names %r" % (house.name, names))
+    if not any(n.startswith("mission_") for n in names):
+        errors.append("house %s has no reared clone: %r" % (house.name, names))
+    for fr in framers:
+        if registry.get(fr.name) is not fr:
+            errors.append("house %s framer %s is not registered in its own house" % (house.name, fr.name))
+    for name, tasker in registry.items():
+        if tasker.store is not house.store:
+            errors.append("house %s registry holds %s of another house" % (house.name, name))
+alpha, beta = sk.houses[0], sk.houses[1]
+beta.assignRegistries()
+worker = alpha.names["tasker"]["worker"]
+taken = [n for n in alpha.names["tasker"] if n.startswith("mission_")]
+if taken:
+    try:
+        worker.clone(name=taken[0], tag="dup")
+    except (excepting.CloneError, excepting.ParameterError):
+        pass
+    else:
+        errors.append("duplicate clone name %s accepted in house alpha while beta was current" % taken[0])
+print(json.dumps(errors))
+sys.exit(1 if errors else 0)
+'''
+
 
 def run(ctx):
     ctx.rule = ("histories of explicit / automatic instance creation (Tasker, Framer, Logger, Log, Store, Frame, House "
@@ -319,13 +472,17 @@ def run(ctx):
         seqs += rng.sample(tri, 500)
         ctx.exhaustive = False
     seqs += directed()
+    seqs += [CLONE_PREFIX + [a] for a in CLONE_ALPHABET]
+    seqs += [CLONE_PREFIX + [a, b] for a in CLONE_ALPHABET for b in CLONE_ALPHABET]
+    if ctx.thorough:
+        seqs += [CLONE_PREFIX + [a, b, c] for a in CLONE_ALPHABET for b in CLONE_ALPHABET for c in CLONE_ALPHABET]
     for _ in range(ctx.n(400, 5000)):
         ops, nh, nf = [], 0, 0
         for _ in range(rng.randint(4, 30)):
             o = gen_op(rng, nh, nf)
             ops.append(o)
             nh += o[0] == "house"
-            nf += o[0] == "create" and o[1] == "CFramer"
+            nf += (o[0] == "create" and o[1] == "CFramer") or o[0] in ("createin", "clone")
         seqs.append(ops)
     cases, metas = [], []
     for ops in seqs:
@@ -335,12 +492,19 @@ def run(ctx):
         # collision handled: a ParameterError result, or an auto name longer than preface+digits
         nontriv = False
         for o in ops:
-            if o[0] in ("create", "house"):
+            if o[0] in ("create", "house", "createin", "clone"):
                 nontriv = nontriv or (o[-1] != [])
-        ctx.case({"ops": ops}, nontrivial=nontriv or any(o[0] in ("assign", "clear") for o in ops),
+        ctx.case({"ops": ops}, nontrivial=nontriv or any(o[0] in ("assign", "clear", "clone") for o in ops),
                  kind="len<=3" if len(ops) <= 3 else "random")
     STATE["metas"] = metas
-    bad = ctx.coq_cases(HEADER, "zleqb", cases, shard=ctx.n(300, 400))
+    # sampled run-time scenario (Rearer -> Framer.clone in a three-house plan); not tied to the Coq model
+    rc, out = ctx.impl_python(REARER_SCRIPT, timeout=120)
+    ctx.case({"scenario": "three houses each rear a clone of a moot framer at run time"}, nontrivial=True, kind="rearer-plan")
+    ctx.extra["rearer_scenario_rc"] = rc
+    if rc != 0:
+        STATE["rearer"] = out[-1500:]
+        ctx.tie_broken("correspondence" if rc == 1 else "harness", "C47 rearer multi-house scenario", out[-1500:])
+    bad = ctx.coq_cases(HEADER, "zleqb", cases, shard=ctx.n(100, 400))
     ctx.extra["mismatches"] = len(bad)
     STATE["bad"] = bad
     for i in bad[:3]:
@@ -351,6 +515,12 @@ def run(ctx):
 
 
 def search(ctx):
+    if STATE.get("rearer") and ctx.extra.get("rearer_scenario_rc") == 1:
+        STATE["rearer_finding"] = {
+            "key": "c47-rearer-other-house", "plan": "three houses (alpha, beta, gamma), each: framer mission rears moot "
+            "framer worker as insular aux clone at run time; 12 ticks", "observed": STATE["rearer"],
+            "expected": "every house gets its own clone 'mission_...' registered in its own tasker registry, no exception",
+            "contradicts": "C47.Props.clone_house_switch_no_collision"}
     metas = STATE.get("metas")
     if metas is None:
         metas = [(list(p), None) for p in itertools.product(ALPHABET, repeat=2)]
@@ -369,10 +539,10 @@ def search(ctx):
                     if v2:
                         ops, v, changed = cand[:v2["step"] + 1], v2, True
                         break
-            cand = {"key": "c47-name-collision", "ops": ops, "detail": v,
+            cand = {"key": v.get("key", "c47-name-collision"), "ops": ops, "detail": v,
                     "contradicts": "C47.Props.names_unique_all_histories"}
             if best is None or len(ops) < len(best["ops"]):
                 best = cand
             if len(best["ops"]) <= 3:
                 break
-    return best
+    return best or STATE.get("rearer_finding")
